@@ -1,9 +1,10 @@
 #!/bin/bash
+# (directories are named <property id> or <property id><letter> for a further change of the same property)
 # Applies every kept seeded change to /repo in turn, runs the quick check of its property, reverts.
 # Every line of the summary must be a VIOLATION; /repo is left clean.  Not registered in MANIFEST (it modifies /repo).
 cd "$(dirname "$0")/.."
-for p in $(ls seeded | grep '^C'); do
+for p in $(ls seeded | grep "^C"); do
   echo "## $p"
-  tools/try_patch.sh "$PWD/seeded/$p/patch.diff" "$p" 2>&1 | grep -E "does not apply|^VIOLATION|^OK|^CHECK-ERROR" | head -1 | cut -c1-220
+  tools/try_patch.sh "$PWD/seeded/$p/patch.diff" "${p:0:3}" 2>&1 | grep -E "does not apply|^VIOLATION|^OK|^CHECK-ERROR" | head -1 | cut -c1-220
 done
 git -C /repo status --short | head -3
